@@ -1,4 +1,7 @@
 pub mod c01;
+pub mod c05;
+pub mod c06;
+pub mod c09;
 pub mod c10;
 pub mod clean;
 pub mod tok;
@@ -13,6 +16,9 @@ pub fn run(ctx: &mut Ctx) -> bool {
         "C07" => tok::check(ctx, "C07"),
         "C08" => tok::check(ctx, "C08"),
         "C10" => c10::check(ctx),
+        "C09" => c09::check(ctx),
+        "C06" => c06::check(ctx),
+        "C05" => c05::check(ctx),
         "C01" => c01::check(ctx),
         "C02" => clean::check(ctx, "C02"),
         "C03" => clean::check(ctx, "C03"),
@@ -27,6 +33,9 @@ pub fn replay(property: &str, sub: &str, case: &Value, obs: &mut Obs) -> Result<
     match property {
         "C07" | "C08" => tok::replay(property, sub, case, obs),
         "C10" => c10::replay(sub, case, obs),
+        "C09" => c09::replay(sub, case, obs),
+        "C06" => c06::replay(sub, case, obs),
+        "C05" => c05::replay(sub, case, obs),
         "C01" => c01::replay(sub, case, obs),
         "C02" | "C03" | "C04" | "C14" => clean::replay(property, sub, case, obs),
         _ => Err(format!("unknown property {property}")),
